@@ -138,6 +138,10 @@ func runC05(c *Ctx) {
 		c.St.Eval("twins:"+t.Token(), true)
 	}
 
+	c.omoList("C05")
+	c.growShrink()
+	c.longLists("C05")
+
 	// stratum 3: structured random programs
 	nprog := c.N(300, 4000)
 	for i := 0; i < nprog; i++ {
